@@ -58,6 +58,17 @@ CHECKS = {
          'order and dependency scores untouched; errors (shape/form/KeyError) leave the arrays unchanged and the shape check comes first. Shipped data (regenerated each run): all 3863 category strings '
          'parse to well-formed values and re-read, the 418 dictionary categories are in targets.en, inventories duplicate-free (vm_compute over the generated lists).',
          'Trusted: Filter.v model (exact correspondence incl. array state after the call), gen_data.py, jsonnet subset reader.', 'Coq proof + computed facts over generated data + differential cases + oracle', 'DESIGN.md §4 C17'),
+ 'C18': ('Rendering modelled as a state transformer on the result store whose per-format effect is DERIVED from the source on every run: gen_render.py (flow-sensitive abstract interpretation with alias '
+         'analysis of every function printer.to_string reaches for each CLI format) emits the mutating operations each printer performs on objects reachable from its arguments; theorems: every offered '
+         'format leaves the store unchanged, hence any sequence of renderings gives step by step what rendering the original gives. Tie: deep snapshots of every Tree/Token/Category before and after '
+         'each real rendering must agree with the model; oracle: random format sequences on the same objects vs. fresh deep copies.',
+         'Trusted: translator gen_render.py (its alias analysis; external callees assumed non-mutating are listed in GenRender.v), Render.v, snapshot function (self-tested).',
+         'Coq proof over generated mutation lists + snapshot correspondence + sequence oracle', 'DESIGN.md §4 C18'),
+ 'C19': ('Theorems over generated tables (strict token keys per printer, label vocabularies of both grammars, prolog functor tables, CLI format lists): every label the English/Japanese grammar can put on '
+         'a node is a key of the table the prolog printer indexes, every tree whose tokens have `word` and whose labels are in the grammar vocabulary - and the failure placeholder - renders Ok in every '
+         'offered offline format, a batch renders iff each sentence does. Tie: model outcome Ok/KeyErr/LabelErr vs what to_string does on batches with every vocabulary label, placeholders and a '
+         'malformed stream. The two nltk-bound ccg2lambda formats cannot run here: listed as unmodelled, not claimed.',
+         'Trusted: gen_render.py, Render.v, traceback-based split of real KeyErrors into key/label errors.', 'Coq proof over generated tables (finite, vm_compute lifted) + outcome correspondence + batch oracle', 'DESIGN.md §4 C19'),
  'C20': ('Coq models of ptb_of/_parse_ptb and ja_of/_JaCCGLineReader with theorems: PTB and bank lines read back to the same categories, shape, words (and rule symbols), every proper prefix of a PTB '
          'line and every unbalanced line is rejected, annotated bank texts ({..} blocks, _suffix) read the same. Domain boundaries are proved as _refuted witnesses (escape collision on words containing '
          '-LRB-/-RRB- spellings, the bank word -RCB-, the symbol OTHER) and excluded from the oracle. Exact correspondence through temp files incl. malformed streams.',
